@@ -146,6 +146,7 @@ class BlockEval:
         self._dead = False
         self._pc_out = []
         self.opaque = set()         # names computed by loops this walker does not summarise
+        self.assign_log = []        # every (name, expanded value, stmt) assigned, in walk order
         self.substores = []         # subscript stores: (expanded container, expanded index, expanded value, pc, loops, stmt)
         self.stores = []            # attribute stores: (target text, expanded value, stmt)
         self.objects = set()        # names mutated through method calls
@@ -163,6 +164,11 @@ class BlockEval:
                     self.objects.add(n.value.func.value.id)
                 if isinstance(n, ast.AugAssign) and isinstance(n.target, ast.Name) and isinstance(n.op, (ast.BitOr, ast.BitAnd)):
                     self.objects.add(n.target.id)
+                if isinstance(n, ast.Assign):
+                    for t_ in n.targets:
+                        for el in (t_.elts if isinstance(t_, (ast.Tuple, ast.List)) else [t_]):
+                            if isinstance(el, ast.Subscript) and isinstance(el.value, ast.Name):
+                                self.objects.add(el.value.id)      # a container filled by `X[k] = v`
                 # containers of containers: `B[r].add(x)`, `B[r] = set()`
                 if isinstance(n, ast.Expr) and isinstance(n.value, ast.Call) and isinstance(n.value.func, ast.Attribute) \
                         and isinstance(n.value.func.value, ast.Subscript) and isinstance(n.value.func.value.value, ast.Name):
@@ -341,6 +347,8 @@ class BlockEval:
                             % (self.where, getattr(s, 'lineno', '?'), U(s)[:80]))
 
     def assign(self, t, v, s):
+        if isinstance(t, ast.Name):
+            self.assign_log.append((t.id, v, s))
         if isinstance(t, ast.Name) and t.id in self.objects:
             self.inits[t.id] = v
             self.env.pop(t.id, None)
